@@ -128,9 +128,9 @@ func RegisterAll() {
 	core.Register(&core.Check{
 		Property: "C11",
 		Level:    "fault_enumeration",
-		Rule: "per chip configuration (12: BAC / PACE-GM 3DES,AES / PACE-CAM / +AA RSA,ECDSA / +CA legacy,AT / extended length / ladder paths / untrusted issuer) the fault-free read fixes E exchanges; every exchange index k in [0,E) x every link fault variant (lost response/command, truncations, bit garbles, oversize, 9 bare status words, replays, swap, SM data-object drop/dup/reorder/re-encode, SW mismatch, chip power cycle, dead link) runs as its own simulation (quick: 3 configurations rotating with the seed, thorough: all), then seeded 2-5 fault plans biased to protocol transitions; " +
+		Rule: "per chip configuration (12: BAC / PACE-GM 3DES,AES / PACE-CAM / +AA RSA,ECDSA / +CA legacy,AT / extended length / ladder paths / untrusted issuer) the fault-free read fixes E exchanges; every exchange index k in [0,E) x every link fault variant (lost response/command, truncations, bit garbles, oversize, 9 bare status words, replays, swap, SM data-object drop/dup/reorder/re-encode, SW mismatch, chip power cycle, dead link) runs as its own simulation (quick: 3 configurations rotating with the seed, thorough: all), then seeded 2-5 fault plans biased to protocol transitions; in addition single-file reads (NfcSession.ReadFile in the clear and under each suite, all chunking behaviours and read sizes of the C13 engine) with one or two link faults at a seeded exchange of the read; " +
 			"distinct_nontrivial counts distinct (configuration, exchange index, fault variant, outcome) tuples whose fault actually fired",
-		Engines:        []core.Engine{E2EFaultEngine{}},
+		Engines:        []core.Engine{E2EFaultEngine{}, ReadFileEngine{}},
 		Assumptions:    []string{"files read without secure messaging (EF.CardAccess) cannot be protected against an on-path modifier by any terminal: there the oracle is 'identical, or not DataTrusted when DG14 is present' (DESIGN.md 6.11, 10)", "no liveness is claimed after a fault: the library has no recovery path"},
 		RealComponents: []string{"gmrtd reader and everything below it (unmodified)"},
 		SimComponents:  []string{"SimChip", "SimPKI world", "faulty link with per-exchange fault plan"},
